@@ -10,6 +10,7 @@ from __future__ import annotations
 
 import asyncio
 import logging
+import sys
 import threading
 import time
 
@@ -835,13 +836,21 @@ def run_sync(res, script, rng, idx):
         root.stop()
         n0 = len(D.log)
         t1 = time.time()
-        while observe.engine_threads() and time.time() - t1 < 1.5:
+        while observe.engine_threads() and time.time() - t1 < 6.0:
             time.sleep(0.004)
         if not D.bad:
             time.sleep(0.03)
             _teardown_check(D, root, n0)
             if observe.engine_threads():
-                D.v("C15:threads-alive-after-root-stop", "threads: %s" % [t.name for t in observe.engine_threads()][:3])
+                import traceback
+                frames = sys._current_frames()
+                where = []
+                for t in observe.engine_threads()[:2]:
+                    fr = frames.get(t.ident)
+                    where.append((t.name.split("::")[0], [
+                        "%s:%d %s" % (f.filename.split("/")[-1], f.lineno, f.name)
+                        for f in (traceback.extract_stack(fr)[-4:] if fr is not None else [])]))
+                D.v("C15:threads-alive-after-root-stop", "threads: %s" % (where,))
     finally:
         jitter["run"] = False
         if root.status != "stopped":
@@ -863,7 +872,7 @@ def run_chunk(spec):
     observe.quiet_logs()
     res = Result()
     tier, ci = spec["tier"], spec["chunk"]
-    wd = Watchdog(res, 120.0)
+    wd = Watchdog(res, 400.0)
     n_async = 50 if tier == "quick" else 20000
     n_sync = 6 if tier == "quick" else 700
     base = ci * 100000
